@@ -61,7 +61,12 @@ class GeometricMTF(SpotDiagram):
             wavelength = optic.primary_wavelength
         if max_freq == 'cutoff':
             # wavelength must be converted to mm for frequency units cycles/mm
-            self.max_freq = 1 / (wavelength * 1e-3 * optic.paraxial.FNO())
+            FNO = optic.paraxial.FNO()
+            if not optic.object_surface.is_infinite:
+                # working F-number for a finite object (as FFTMTF._get_fno)
+                p = optic.paraxial.XPD() / optic.paraxial.EPD()
+                FNO = FNO * (1 + np.abs(optic.paraxial.magnification()) / p)
+            self.max_freq = 1 / (wavelength * 1e-3 * FNO)
 
         super().__init__(optic, fields, [wavelength], num_rays, distribution)
 
